@@ -25,7 +25,10 @@ import (
 
 type cval interface{}
 
-type ccell struct{ v cval }                // a memory cell (local, global, map-less)
+type ccell struct { // a memory cell (local or global)
+	v      cval
+	isTemp bool // allocated inside the guarded block of a symbolic branch
+}
 type celem struct {                        // address of an array / slice element
 	arr *[]cval
 	i   int
@@ -51,12 +54,36 @@ type citer struct {
 }
 type cpanic struct{ msg string }
 
+// Symbolic flag sets: a value conc | sum of b_k*2^k over the symbolic bit positions, the b_k
+// being independent unknown booleans. Only the operations a flag printer performs are
+// supported: masking with a literal, comparison with 0, and branching on a single bit.
+type csym struct {
+	conc *big.Int
+	bits map[int]bool
+}
+type csymbit struct{ k int }           // the value b_k * 2^k
+type csymcond struct {                  // the condition b_k == pos
+	k   int
+	pos bool
+}
+type cguard struct {                    // a slice element present iff the condition holds
+	c csymcond
+	v cval
+}
+type cgjoin struct {                    // strings.Join over a slice with guarded elements
+	elems []cval
+	sep   string
+}
+
 type interp struct {
 	e       *Engine
 	globals map[*ssa.Global]*ccell
 	inited  map[*ssa.Package]bool
 	fuel    int
 	desc    bool // map iteration order: descending keys
+	nonZero bool // symbolic run: the all-false assignment is excluded (covered by a separate concrete run)
+	wlog    map[*ccell]cval // cells written while executing the guarded branch of a symbolic condition
+	logging bool
 }
 
 type evalAbort struct{ msg string }
@@ -148,7 +175,7 @@ func (in *interp) global(g *ssa.Global) *ccell {
 	}
 	c := in.globals[g]
 	if c == nil {
-		c = &ccell{in.zero(g.Type().(*types.Pointer).Elem())}
+		c = &ccell{v: in.zero(g.Type().(*types.Pointer).Elem())}
 		in.globals[g] = c
 	}
 	return c
@@ -161,7 +188,7 @@ func (in *interp) initPkg(p *ssa.Package) {
 	for _, m := range p.Members {
 		if g, ok := m.(*ssa.Global); ok {
 			if _, ok := in.globals[g]; !ok {
-				in.globals[g] = &ccell{in.zero(g.Type().(*types.Pointer).Elem())}
+				in.globals[g] = &ccell{v: in.zero(g.Type().(*types.Pointer).Elem())}
 			}
 		}
 	}
@@ -175,6 +202,7 @@ func (in *interp) initPkg(p *ssa.Package) {
 
 type frame struct {
 	vals map[ssa.Value]cval
+	prev *ssa.BasicBlock
 }
 
 func (in *interp) get(fr *frame, v ssa.Value) cval {
@@ -219,6 +247,11 @@ func (in *interp) load(addr cval) cval {
 func (in *interp) store(addr, v cval) {
 	switch a := addr.(type) {
 	case *ccell:
+		if in.logging {
+			if _, ok := in.wlog[a]; !ok {
+				in.wlog[a] = a.v
+			}
+		}
 		a.v = v
 	case celem:
 		(*a.arr)[a.i] = v
@@ -237,262 +270,358 @@ func (in *interp) call(fn *ssa.Function, args []cval) (res []cval, pv *cpanic) {
 		fr.vals[p] = args[i]
 	}
 	b := fn.Blocks[0]
-	var prev *ssa.BasicBlock
 	for {
 		var next *ssa.BasicBlock
 		for _, ins := range b.Instrs {
-			in.fuel--
-			if in.fuel <= 0 {
-				in.abort("unwinding bound exceeded in %s", fn)
+			nx, rs, returned, p := in.exec(fr, fn, b, ins)
+			if p != nil {
+				return nil, p
 			}
-			switch x := ins.(type) {
-			case *ssa.DebugRef, *ssa.RunDefers:
-			case *ssa.Defer:
-				in.abort("defer in %s", fn)
-			case *ssa.Phi:
-				for k, p := range b.Preds {
-					if p == prev {
-						fr.vals[x] = in.get(fr, x.Edges[k])
-					}
-				}
-			case *ssa.Alloc:
-				et := x.Type().(*types.Pointer).Elem()
-				fr.vals[x] = &ccell{in.zero(et)}
-			case *ssa.Store:
-				in.store(in.get(fr, x.Addr), in.copyVal(in.get(fr, x.Val)))
-			case *ssa.UnOp:
-				v := in.get(fr, x.X)
-				switch x.Op {
-				case token.MUL:
-					fr.vals[x] = in.copyVal(in.load(v))
-				case token.NOT:
-					fr.vals[x] = !v.(bool)
-				case token.SUB:
-					fr.vals[x] = wrapInt(new(big.Int).Neg(bigOf(v)), x.Type())
-				case token.XOR:
-					fr.vals[x] = wrapInt(new(big.Int).Not(bigOf(v)), x.Type())
-				default:
-					in.abort("unary %s", x.Op)
-				}
-			case *ssa.BinOp:
-				r, p := in.binop(x, in.get(fr, x.X), in.get(fr, x.Y))
-				if p != nil {
-					return nil, p
-				}
-				fr.vals[x] = r
-			case *ssa.Convert:
-				v := in.get(fr, x.X)
-				if bi, ok := v.(*big.Int); ok {
-					if bt, ok := x.Type().Underlying().(*types.Basic); ok && bt.Info()&types.IsInteger != 0 {
-						fr.vals[x] = wrapInt(bi, x.Type())
-						break
-					}
-				}
-				if s, ok := v.(string); ok {
-					if _, ok := x.Type().Underlying().(*types.Basic); ok {
-						fr.vals[x] = s
-						break
-					}
-				}
-				in.abort("conversion %s -> %s", x.X.Type(), x.Type())
-			case *ssa.ChangeType:
-				fr.vals[x] = in.get(fr, x.X)
-			case *ssa.MakeInterface:
-				fr.vals[x] = ciface{x.X.Type(), in.get(fr, x.X)}
-			case *ssa.ChangeInterface:
-				fr.vals[x] = in.get(fr, x.X)
-			case *ssa.Index:
-				base, idx := in.get(fr, x.X), bigOf(in.get(fr, x.Index))
-				switch bv := base.(type) {
-				case string:
-					if !idx.IsInt64() || idx.Int64() < 0 || idx.Int64() >= int64(len(bv)) {
-						return nil, &cpanic{"index out of range"}
-					}
-					fr.vals[x] = big.NewInt(int64(bv[idx.Int64()]))
-				case *[]cval:
-					if !idx.IsInt64() || idx.Int64() < 0 || idx.Int64() >= int64(len(*bv)) {
-						return nil, &cpanic{"index out of range"}
-					}
-					fr.vals[x] = (*bv)[idx.Int64()]
-				default:
-					in.abort("index of %T", base)
-				}
-			case *ssa.IndexAddr:
-				base, idx := in.get(fr, x.X), bigOf(in.get(fr, x.Index))
-				var arr *[]cval
-				lo, n := 0, 0
-				switch bv := base.(type) {
-				case *ccell: // pointer to array
-					arr = bv.v.(*[]cval)
-					n = len(*arr)
-				case cslice:
-					arr, lo, n = bv.arr, bv.lo, bv.hi-bv.lo
-				default:
-					in.abort("IndexAddr on %T", base)
-				}
-				if !idx.IsInt64() || idx.Int64() < 0 || idx.Int64() >= int64(n) {
-					return nil, &cpanic{"index out of range"}
-				}
-				fr.vals[x] = celem{arr, lo + int(idx.Int64())}
-			case *ssa.Slice:
-				base := in.get(fr, x.X)
-				bound := func(v ssa.Value, def int) int {
-					if v == nil {
-						return def
-					}
-					b := bigOf(in.get(fr, v))
-					if !b.IsInt64() {
-						return -1
-					}
-					return int(b.Int64())
-				}
-				switch bv := base.(type) {
-				case string:
-					lo, hi := bound(x.Low, 0), bound(x.High, len(bv))
-					if lo < 0 || hi < lo || hi > len(bv) {
-						return nil, &cpanic{"slice bounds out of range"}
-					}
-					fr.vals[x] = bv[lo:hi]
-				case *ccell:
-					arr := bv.v.(*[]cval)
-					lo, hi := bound(x.Low, 0), bound(x.High, len(*arr))
-					if lo < 0 || hi < lo || hi > len(*arr) {
-						return nil, &cpanic{"slice bounds out of range"}
-					}
-					fr.vals[x] = cslice{arr, lo, hi}
-				case cslice:
-					lo, hi := bound(x.Low, 0), bound(x.High, bv.hi-bv.lo)
-					if lo < 0 || hi < lo || bv.lo+hi > len(*bv.arr) {
-						return nil, &cpanic{"slice bounds out of range"}
-					}
-					fr.vals[x] = cslice{bv.arr, bv.lo + lo, bv.lo + hi}
-				default:
-					in.abort("slice of %T", base)
-				}
-			case *ssa.FieldAddr:
-				base := in.get(fr, x.X)
-				switch bv := base.(type) {
-				case *ccell:
-					arr, ok := bv.v.(*[]cval)
-					if !ok {
-						in.abort("FieldAddr on a cell holding %T", bv.v)
-					}
-					fr.vals[x] = celem{arr, x.Field}
-				case celem:
-					arr, ok := (*bv.arr)[bv.i].(*[]cval)
-					if !ok {
-						in.abort("FieldAddr on an element holding %T", (*bv.arr)[bv.i])
-					}
-					fr.vals[x] = celem{arr, x.Field}
-				case nil:
-					return nil, &cpanic{"nil pointer dereference"}
-				default:
-					in.abort("FieldAddr on %T", base)
-				}
-			case *ssa.Field:
-				arr, ok := in.get(fr, x.X).(*[]cval)
-				if !ok {
-					in.abort("Field of %T", in.get(fr, x.X))
-				}
-				fr.vals[x] = (*arr)[x.Field]
-			case *ssa.MakeMap:
-				fr.vals[x] = &cmap{m: map[string]cval{}, keys: map[string]cval{}}
-			case *ssa.MapUpdate:
-				m := in.get(fr, x.Map).(*cmap)
-				k := in.get(fr, x.Key)
-				m.m[keyString(k)] = in.get(fr, x.Value)
-				m.keys[keyString(k)] = k
-			case *ssa.Lookup:
-				base := in.get(fr, x.X)
-				switch bv := base.(type) {
-				case *cmap:
-					v, ok := bv.m[keyString(in.get(fr, x.Index))]
-					if !ok {
-						v = in.zero(x.X.Type().Underlying().(*types.Map).Elem())
-					}
-					if x.CommaOk {
-						fr.vals[x] = ctuple{v, ok}
-					} else {
-						fr.vals[x] = v
-					}
-				case nil:
-					v := in.zero(x.X.Type().Underlying().(*types.Map).Elem())
-					if x.CommaOk {
-						fr.vals[x] = ctuple{v, false}
-					} else {
-						fr.vals[x] = v
-					}
-				default:
-					in.abort("lookup in %T", base)
-				}
-			case *ssa.Range:
-				m, ok := in.get(fr, x.X).(*cmap)
-				if !ok {
-					in.abort("range over %s", x.X.Type())
-				}
-				var ks []string
-				for k := range m.m {
-					ks = append(ks, k)
-				}
-				sort.Strings(ks)
-				if in.desc {
-					for i, j := 0, len(ks)-1; i < j; i, j = i+1, j-1 {
-						ks[i], ks[j] = ks[j], ks[i]
-					}
-				}
-				fr.vals[x] = &citer{m: m, keys: ks}
-			case *ssa.Next:
-				it := in.get(fr, x.Iter).(*citer)
-				if it.pos >= len(it.keys) {
-					fr.vals[x] = ctuple{false, nil, nil}
-				} else {
-					k := it.keys[it.pos]
-					it.pos++
-					fr.vals[x] = ctuple{true, it.m.keys[k], it.m.m[k]}
-				}
-			case *ssa.Extract:
-				fr.vals[x] = in.get(fr, x.Tuple).(ctuple)[x.Index]
-			case *ssa.Call:
-				r, p := in.doCall(fr, x.Common())
-				if p != nil {
-					return nil, p
-				}
-				switch len(r) {
-				case 0:
-				case 1:
-					fr.vals[x] = r[0]
-				default:
-					fr.vals[x] = ctuple(r)
-				}
-			case *ssa.If:
-				c, ok := in.get(fr, x.Cond).(bool)
-				if !ok {
-					in.abort("branch condition is not a literal")
-				}
-				if c {
-					next = b.Succs[0]
-				} else {
-					next = b.Succs[1]
-				}
-			case *ssa.Jump:
-				next = b.Succs[0]
-			case *ssa.Return:
-				var rs []cval
-				for _, r := range x.Results {
-					rs = append(rs, in.get(fr, r))
-				}
+			if returned {
 				return rs, nil
-			case *ssa.Panic:
-				return nil, &cpanic{fmt.Sprint(in.get(fr, x.X))}
-			default:
-				in.abort("unsupported instruction %T in %s", ins, fn)
+			}
+			if nx != nil {
+				next = nx
 			}
 		}
 		if next == nil {
 			in.abort("block without terminator in %s", fn)
 		}
-		prev, b = b, next
+		fr.prev, b = b, next
 	}
+}
+
+// step executes a non-terminator instruction (used for the guarded block of a symbolic branch).
+func (in *interp) step(fr *frame, fn *ssa.Function, b *ssa.BasicBlock, ins ssa.Instruction) *cpanic {
+	_, _, returned, p := in.exec(fr, fn, b, ins)
+	if returned {
+		in.abort("return under a symbolic condition")
+	}
+	return p
+}
+
+// exec executes one instruction: it yields the next block (terminators), the results (return) or a panic.
+func (in *interp) exec(fr *frame, fn *ssa.Function, b *ssa.BasicBlock, ins ssa.Instruction) (next *ssa.BasicBlock, rets []cval, returned bool, pv *cpanic) {
+	prev := fr.prev
+	_ = prev
+	in.fuel--
+	if in.fuel <= 0 {
+		in.abort("unwinding bound exceeded in %s", fn)
+	}
+
+	switch x := ins.(type) {
+	case *ssa.DebugRef, *ssa.RunDefers:
+	case *ssa.Defer:
+		in.abort("defer in %s", fn)
+	case *ssa.Phi:
+		for k, p := range b.Preds {
+			if p == prev {
+				fr.vals[x] = in.get(fr, x.Edges[k])
+			}
+		}
+	case *ssa.Alloc:
+		et := x.Type().(*types.Pointer).Elem()
+		fr.vals[x] = &ccell{v: in.zero(et), isTemp: in.logging}
+	case *ssa.Store:
+		in.store(in.get(fr, x.Addr), in.copyVal(in.get(fr, x.Val)))
+	case *ssa.UnOp:
+		v := in.get(fr, x.X)
+		switch x.Op {
+		case token.MUL:
+			fr.vals[x] = in.copyVal(in.load(v))
+		case token.NOT:
+			fr.vals[x] = !v.(bool)
+		case token.SUB:
+			fr.vals[x] = wrapInt(new(big.Int).Neg(bigOf(v)), x.Type())
+		case token.XOR:
+			fr.vals[x] = wrapInt(new(big.Int).Not(bigOf(v)), x.Type())
+		default:
+			in.abort("unary %s", x.Op)
+		}
+	case *ssa.BinOp:
+		r, p := in.binop(x, in.get(fr, x.X), in.get(fr, x.Y))
+		if p != nil {
+			return nil, nil, false, p
+		}
+		fr.vals[x] = r
+	case *ssa.Convert:
+		v := in.get(fr, x.X)
+		if bi, ok := v.(*big.Int); ok {
+			if bt, ok := x.Type().Underlying().(*types.Basic); ok && bt.Info()&types.IsInteger != 0 {
+				fr.vals[x] = wrapInt(bi, x.Type())
+				break
+			}
+		}
+		if s, ok := v.(string); ok {
+			if _, ok := x.Type().Underlying().(*types.Basic); ok {
+				fr.vals[x] = s
+				break
+			}
+		}
+		in.abort("conversion %s -> %s", x.X.Type(), x.Type())
+	case *ssa.ChangeType:
+		fr.vals[x] = in.get(fr, x.X)
+	case *ssa.MakeInterface:
+		fr.vals[x] = ciface{x.X.Type(), in.get(fr, x.X)}
+	case *ssa.ChangeInterface:
+		fr.vals[x] = in.get(fr, x.X)
+	case *ssa.Index:
+		base, idx := in.get(fr, x.X), bigOf(in.get(fr, x.Index))
+		switch bv := base.(type) {
+		case string:
+			if !idx.IsInt64() || idx.Int64() < 0 || idx.Int64() >= int64(len(bv)) {
+				return nil, nil, false, &cpanic{"index out of range"}
+			}
+			fr.vals[x] = big.NewInt(int64(bv[idx.Int64()]))
+		case *[]cval:
+			if !idx.IsInt64() || idx.Int64() < 0 || idx.Int64() >= int64(len(*bv)) {
+				return nil, nil, false, &cpanic{"index out of range"}
+			}
+			fr.vals[x] = (*bv)[idx.Int64()]
+		default:
+			in.abort("index of %T", base)
+		}
+	case *ssa.IndexAddr:
+		base, idx := in.get(fr, x.X), bigOf(in.get(fr, x.Index))
+		var arr *[]cval
+		lo, n := 0, 0
+		switch bv := base.(type) {
+		case *ccell: // pointer to array
+			arr = bv.v.(*[]cval)
+			n = len(*arr)
+		case cslice:
+			arr, lo, n = bv.arr, bv.lo, bv.hi-bv.lo
+		default:
+			in.abort("IndexAddr on %T", base)
+		}
+		if !idx.IsInt64() || idx.Int64() < 0 || idx.Int64() >= int64(n) {
+			return nil, nil, false, &cpanic{"index out of range"}
+		}
+		fr.vals[x] = celem{arr, lo + int(idx.Int64())}
+	case *ssa.Slice:
+		base := in.get(fr, x.X)
+		bound := func(v ssa.Value, def int) int {
+			if v == nil {
+				return def
+			}
+			b := bigOf(in.get(fr, v))
+			if !b.IsInt64() {
+				return -1
+			}
+			return int(b.Int64())
+		}
+		switch bv := base.(type) {
+		case string:
+			lo, hi := bound(x.Low, 0), bound(x.High, len(bv))
+			if lo < 0 || hi < lo || hi > len(bv) {
+				return nil, nil, false, &cpanic{"slice bounds out of range"}
+			}
+			fr.vals[x] = bv[lo:hi]
+		case *ccell:
+			arr := bv.v.(*[]cval)
+			lo, hi := bound(x.Low, 0), bound(x.High, len(*arr))
+			if lo < 0 || hi < lo || hi > len(*arr) {
+				return nil, nil, false, &cpanic{"slice bounds out of range"}
+			}
+			fr.vals[x] = cslice{arr, lo, hi}
+		case cslice:
+			lo, hi := bound(x.Low, 0), bound(x.High, bv.hi-bv.lo)
+			if lo < 0 || hi < lo || bv.lo+hi > len(*bv.arr) {
+				return nil, nil, false, &cpanic{"slice bounds out of range"}
+			}
+			fr.vals[x] = cslice{bv.arr, bv.lo + lo, bv.lo + hi}
+		default:
+			in.abort("slice of %T", base)
+		}
+	case *ssa.FieldAddr:
+		base := in.get(fr, x.X)
+		switch bv := base.(type) {
+		case *ccell:
+			arr, ok := bv.v.(*[]cval)
+			if !ok {
+				in.abort("FieldAddr on a cell holding %T", bv.v)
+			}
+			fr.vals[x] = celem{arr, x.Field}
+		case celem:
+			arr, ok := (*bv.arr)[bv.i].(*[]cval)
+			if !ok {
+				in.abort("FieldAddr on an element holding %T", (*bv.arr)[bv.i])
+			}
+			fr.vals[x] = celem{arr, x.Field}
+		case nil:
+			return nil, nil, false, &cpanic{"nil pointer dereference"}
+		default:
+			in.abort("FieldAddr on %T", base)
+		}
+	case *ssa.Field:
+		arr, ok := in.get(fr, x.X).(*[]cval)
+		if !ok {
+			in.abort("Field of %T", in.get(fr, x.X))
+		}
+		fr.vals[x] = (*arr)[x.Field]
+	case *ssa.MakeSlice:
+		n := bigOf(in.get(fr, x.Len))
+		if !n.IsInt64() || n.Int64() < 0 || n.Int64() > 1<<20 {
+			in.abort("make: length %s", n)
+		}
+		arr := make([]cval, n.Int64())
+		for i := range arr {
+			arr[i] = in.zero(x.Type().Underlying().(*types.Slice).Elem())
+		}
+		fr.vals[x] = cslice{&arr, 0, len(arr)}
+	case *ssa.MakeMap:
+		fr.vals[x] = &cmap{m: map[string]cval{}, keys: map[string]cval{}}
+	case *ssa.MapUpdate:
+		m := in.get(fr, x.Map).(*cmap)
+		k := in.get(fr, x.Key)
+		m.m[keyString(k)] = in.get(fr, x.Value)
+		m.keys[keyString(k)] = k
+	case *ssa.Lookup:
+		base := in.get(fr, x.X)
+		switch bv := base.(type) {
+		case *cmap:
+			v, ok := bv.m[keyString(in.get(fr, x.Index))]
+			if !ok {
+				v = in.zero(x.X.Type().Underlying().(*types.Map).Elem())
+			}
+			if x.CommaOk {
+				fr.vals[x] = ctuple{v, ok}
+			} else {
+				fr.vals[x] = v
+			}
+		case nil:
+			v := in.zero(x.X.Type().Underlying().(*types.Map).Elem())
+			if x.CommaOk {
+				fr.vals[x] = ctuple{v, false}
+			} else {
+				fr.vals[x] = v
+			}
+		default:
+			in.abort("lookup in %T", base)
+		}
+	case *ssa.Range:
+		m, ok := in.get(fr, x.X).(*cmap)
+		if !ok {
+			in.abort("range over %s", x.X.Type())
+		}
+		var ks []string
+		for k := range m.m {
+			ks = append(ks, k)
+		}
+		sort.Strings(ks)
+		if in.desc {
+			for i, j := 0, len(ks)-1; i < j; i, j = i+1, j-1 {
+				ks[i], ks[j] = ks[j], ks[i]
+			}
+		}
+		fr.vals[x] = &citer{m: m, keys: ks}
+	case *ssa.Next:
+		it := in.get(fr, x.Iter).(*citer)
+		if it.pos >= len(it.keys) {
+			fr.vals[x] = ctuple{false, nil, nil}
+		} else {
+			k := it.keys[it.pos]
+			it.pos++
+			fr.vals[x] = ctuple{true, it.m.keys[k], it.m.m[k]}
+		}
+	case *ssa.Extract:
+		fr.vals[x] = in.get(fr, x.Tuple).(ctuple)[x.Index]
+	case *ssa.Call:
+		r, p := in.doCall(fr, x.Common())
+		if p != nil {
+			return nil, nil, false, p
+		}
+		switch len(r) {
+		case 0:
+		case 1:
+			fr.vals[x] = r[0]
+		default:
+			fr.vals[x] = ctuple(r)
+		}
+	case *ssa.If:
+		if sc, isSym := in.get(fr, x.Cond).(csymcond); isSym {
+			// if b_k { then } with the else edge being the join: run the guarded block, then turn what it
+			// appended to a slice into guarded elements
+			thenB, join := b.Succs[0], b.Succs[1]
+			if !sc.pos {
+				thenB, join = b.Succs[1], b.Succs[0]
+			}
+			if len(thenB.Succs) != 1 || thenB.Succs[0] != join || len(thenB.Preds) != 1 {
+				in.abort("symbolic branch that is not of the form if b { ... }")
+			}
+			if in.logging {
+				in.abort("nested symbolic branches")
+			}
+			in.logging, in.wlog = true, map[*ccell]cval{}
+			for _, ins2 := range thenB.Instrs {
+				if _, isJump := ins2.(*ssa.Jump); isJump {
+					break
+				}
+				if pv := in.step(fr, fn, thenB, ins2); pv != nil {
+					in.abort("panic under a symbolic condition: %s", pv.msg)
+				}
+			}
+			in.logging = false
+			for cell, oldv := range in.wlog {
+				if cell.isTemp {
+					continue
+				}
+				nv, ok1 := cell.v.(cslice)
+				var oldElems []cval
+				switch ov := oldv.(type) {
+				case cslice:
+					oldElems = (*ov.arr)[ov.lo:ov.hi]
+				case nil:
+				default:
+					ok1 = false
+				}
+				if !ok1 || nv.hi-nv.lo < len(oldElems) {
+					in.abort("symbolic branch changes a variable other than by appending to a slice")
+				}
+				elems := append([]cval{}, (*nv.arr)[nv.lo:nv.hi]...)
+				for i := range oldElems {
+					if fmt.Sprint(elems[i]) != fmt.Sprint(oldElems[i]) {
+						in.abort("symbolic branch rewrites slice elements")
+					}
+				}
+				for i := len(oldElems); i < len(elems); i++ {
+					if _, already := elems[i].(cguard); already {
+						in.abort("nested guards")
+					}
+					elems[i] = cguard{csymcond{sc.k, true}, elems[i]}
+					if !sc.pos {
+						elems[i] = cguard{csymcond{sc.k, false}, elems[i].(cguard).v}
+					}
+				}
+				cell.v = cslice{&elems, 0, len(elems)}
+			}
+			in.wlog = nil
+			next = join
+			break
+		}
+		c, ok := in.get(fr, x.Cond).(bool)
+		if !ok {
+			in.abort("branch condition is not a literal")
+		}
+		if c {
+			next = b.Succs[0]
+		} else {
+			next = b.Succs[1]
+		}
+	case *ssa.Jump:
+		next = b.Succs[0]
+	case *ssa.Return:
+		var rs []cval
+		for _, r := range x.Results {
+			rs = append(rs, in.get(fr, r))
+		}
+		return nil, rs, true, nil
+	case *ssa.Panic:
+		return nil, nil, false, &cpanic{fmt.Sprint(in.get(fr, x.X))}
+	default:
+		in.abort("unsupported instruction %T in %s", ins, fn)
+	}
+	return next, nil, false, nil
 }
 
 // copyVal: arrays are values (copied on load/store); everything else is immutable or a reference.
@@ -506,6 +635,9 @@ func (in *interp) copyVal(v cval) cval {
 }
 
 func (in *interp) binop(x *ssa.BinOp, a, b cval) (cval, *cpanic) {
+	if r, ok := in.symBinop(x, a, b); ok {
+		return r, nil
+	}
 	switch av := a.(type) {
 	case string:
 		bv := b.(string)
@@ -643,6 +775,23 @@ func (in *interp) doCall(fr *frame, cc *ssa.CallCommon) ([]cval, *cpanic) {
 			}
 		case "ssa:deferstack":
 			return []cval{nil}, nil
+		case "append":
+			var elems []cval
+			if sl, ok := args[0].(cslice); ok {
+				elems = append(elems, (*sl.arr)[sl.lo:sl.hi]...)
+			} else if args[0] != nil {
+				in.abort("append to %T", args[0])
+			}
+			switch more := args[1].(type) {
+			case cslice:
+				elems = append(elems, (*more.arr)[more.lo:more.hi]...)
+			case nil:
+			default:
+				in.abort("append of %T", args[1])
+			}
+			arr := make([]cval, len(elems))
+			copy(arr, elems)
+			return []cval{cslice{&arr, 0, len(arr)}}, nil
 		}
 		in.abort("builtin %s", callee.Name())
 	case *ssa.Function:
@@ -654,6 +803,29 @@ func (in *interp) doCall(fr *frame, cc *ssa.CallCommon) ([]cval, *cpanic) {
 			return []cval{bigOf(args[0]).Text(int(bigOf(args[1]).Int64()))}, nil
 		case "strconv.Itoa":
 			return []cval{bigOf(args[0]).String()}, nil
+		case "strings.Join":
+			var parts []string
+			if sl, ok := args[0].(cslice); ok {
+				guarded := false
+				for _, e := range (*sl.arr)[sl.lo:sl.hi] {
+					if _, g := e.(cguard); g {
+						guarded = true
+					}
+				}
+				if guarded || in.nonZero {
+					return []cval{cgjoin{append([]cval{}, (*sl.arr)[sl.lo:sl.hi]...), args[1].(string)}}, nil
+				}
+				for _, e := range (*sl.arr)[sl.lo:sl.hi] {
+					parts = append(parts, e.(string))
+				}
+			} else if in.nonZero {
+				return []cval{cgjoin{nil, args[1].(string)}}, nil
+			}
+			return []cval{strings.Join(parts, args[1].(string))}, nil
+		case "strings.HasPrefix":
+			return []cval{strings.HasPrefix(args[0].(string), args[1].(string))}, nil
+		case "strings.HasSuffix":
+			return []cval{strings.HasSuffix(args[0].(string), args[1].(string))}, nil
 		case "fmt.Errorf", "fmt.Sprintf", "github.com/pkg/errors.Errorf":
 			// only its being a non-nil error / some string matters (it is about to be thrown or reported)
 			if strings.HasSuffix(full, "Sprintf") {
@@ -854,6 +1026,9 @@ func (e *Engine) enumRoundtrip(prop string) ([]staticResult, []string) {
 	if ntypes == 0 {
 		return nil, []string{"enum-roundtrip: no XFromString functions found (contract-stale)"}
 	}
+	// flag sets: complete enumeration of all subsets of the single-bit flags where that is feasible
+	res = append(res, e.flagSets(in, tpkgs)...)
+	res = append(res, e.flagSetsSymbolic(in, tpkgs)...)
 	// the tables are never written after initialisation
 	var ps []*ssa.Package
 	for p := range tpkgs {
@@ -870,4 +1045,481 @@ func (e *Engine) enumRoundtrip(prop string) ([]staticResult, []string) {
 	}
 	res = append(res, r)
 	return res, nil
+}
+
+
+// flagSets (C18, "flag sets print as exactly the set of their members"): for the bit-flag types
+// whose set of single-bit flags is small enough (DISPFlag: 2^11 subsets, AllocKind: 2^6), every
+// subset is printed by the real printer, the text is split at the separator (assumed inverse of
+// strings.Join / of the grammar's list syntax), every piece is mapped back by the real
+// XFromString, and the OR of the pieces must be the set; the pieces must be exactly the keywords
+// of the members, in ascending order. DIFlag (2^30 subsets) stays with the bounded stand-in.
+func (e *Engine) flagSets(in *interp, tpkgs map[*ssa.Package]bool) []staticResult {
+	type fam struct {
+		typ, printerPkg, printer, sep, from string
+	}
+	fams := []fam{
+		{"DISPFlag", modPath + "/ir/metadata", "dispFlagsString", " | ", "DISPFlagFromString"},
+		{"AllocKind", modPath + "/ir", "allocKindString", ",", "AllocKindFromString"},
+	}
+	var res []staticResult
+	apkg := e.pkgs[modPath+"/asm/enum"]
+	epkg := e.pkgs[modPath+"/ir/enum"]
+	for _, f := range fams {
+		r := staticResult{Name: "flagset:" + f.typ, Func: f.printerPkg + "." + f.printer, Kind: "flagset-roundtrip", Status: "unsat", Backend: "govc-eval"}
+		pp := e.pkgs[f.printerPkg]
+		if pp == nil || apkg == nil || epkg == nil {
+			r.Status, r.Detail = "error", "package "+f.printerPkg+" not loaded"
+			res = append(res, r)
+			continue
+		}
+		tpkgs[pp] = true
+		printer, from := pp.Func(f.printer), apkg.Func(f.from)
+		tn, _ := epkg.Pkg.Scope().Lookup(f.typ).(*types.TypeName)
+		if printer == nil || from == nil || tn == nil {
+			r.Status, r.Detail = "error", "contract-stale: "+f.printer+" / "+f.from+" / "+f.typ+" not found"
+			res = append(res, r)
+			continue
+		}
+		r.Pos = posOf(e, printer.Pos())
+		// single-bit flags and their keywords
+		var bits []*big.Int
+		kw := map[string]string{}
+		seen := map[string]bool{}
+		sc := epkg.Pkg.Scope()
+		for _, c := range sc.Names() {
+			co, ok := sc.Lookup(c).(*types.Const)
+			if !ok || !types.Identical(co.Type(), tn.Type()) || !co.Exported() {
+				continue
+			}
+			v, _ := new(big.Int).SetString(constant.ToInt(co.Val()).ExactString(), 10)
+			if v.Sign() <= 0 || new(big.Int).And(v, new(big.Int).Sub(v, big.NewInt(1))).Sign() != 0 || seen[v.String()] {
+				continue
+			}
+			seen[v.String()] = true
+			bits = append(bits, v)
+		}
+		sort.Slice(bits, func(i, j int) bool { return bits[i].Cmp(bits[j]) < 0 })
+		if len(bits) == 0 || len(bits) > 14 {
+			r.Status, r.Detail = "error", fmt.Sprintf("%d single-bit flags: enumeration not feasible", len(bits))
+			res = append(res, r)
+			continue
+		}
+		run := func(fn *ssa.Function, arg cval) (out cval, pv *cpanic, err string) {
+			defer func() {
+				if x := recover(); x != nil {
+					if ab, ok := x.(evalAbort); ok {
+						err = ab.msg
+						return
+					}
+					panic(x)
+				}
+			}()
+			in.fuel = 200000
+			in.desc = false
+			rs, p := in.call(fn, []cval{arg})
+			if p != nil {
+				return nil, p, ""
+			}
+			return rs[0], nil, ""
+		}
+		sel := e.prog.MethodSets.MethodSet(tn.Type()).Lookup(epkg.Pkg, "String")
+		strFn := e.prog.MethodValue(sel)
+		for _, b := range bits {
+			s, pv, err := run(strFn, b)
+			if err != "" || pv != nil {
+				r.Status, r.Detail = "error", fmt.Sprintf("cannot print flag %s: %s %v", b, err, pv)
+				break
+			}
+			kw[b.String()] = s.(string)
+		}
+		n := 0
+		for set := 0; set < 1<<uint(len(bits)) && r.Status == "unsat"; set++ {
+			val := new(big.Int)
+			var want []string
+			for i, b := range bits {
+				if set&(1<<uint(i)) != 0 {
+					val.Or(val, b)
+					want = append(want, kw[b.String()])
+				}
+			}
+			n++
+			s, pv, err := run(printer, val)
+			if err != "" {
+				r.Status, r.Detail = "error", "cannot execute "+f.printer+": "+err
+				break
+			}
+			if pv != nil {
+				r.Status, r.Detail, r.Witness = "fail", fmt.Sprintf("%s(%s) panics: %s", f.printer, val, pv.msg), val.String()
+				break
+			}
+			text := s.(string)
+			pieces := strings.Split(text, f.sep)
+			_ = want
+			back := new(big.Int)
+			for _, pc := range pieces {
+				if f.typ == "AllocKind" && set == 0 && pc == "" {
+					continue // the empty set prints as the empty list
+				}
+				v, pv2, err2 := run(from, strings.TrimSpace(pc))
+				if err2 != "" {
+					r.Status, r.Detail = "error", "cannot execute "+f.from+": "+err2
+					break
+				}
+				if pv2 != nil {
+					r.Status, r.Detail, r.Witness = "fail", fmt.Sprintf("%s(%s) prints %q; %s rejects the piece %q", f.printer, val, text, f.from, pc), val.String()
+					break
+				}
+				back.Or(back, bigOf(v))
+			}
+			if r.Status == "unsat" && back.Cmp(val) != 0 {
+				r.Status, r.Detail, r.Witness = "fail", fmt.Sprintf("%s(%s) prints %q, whose pieces map back to %s", f.printer, val, text, back), val.String()
+			}
+		}
+		if r.Status == "unsat" {
+			r.Detail = fmt.Sprintf("all %d subsets of the %d single-bit %s flags: every piece of what %s prints is a keyword, and the pieces map back (through %s) to exactly the set", n, len(bits), f.typ, f.printer, f.from)
+		}
+		res = append(res, r)
+	}
+	return res
+}
+
+
+// symBinop: the operations a flag printer performs on a symbolic flag set.
+func (in *interp) symBinop(x *ssa.BinOp, a, b cval) (cval, bool) {
+	sa, aSym := a.(csym)
+	sb, bSym := b.(csym)
+	if aSym && bSym {
+		in.abort("operator %s on two symbolic values", x.Op)
+	}
+	if bSym {
+		sa, aSym, b = sb, true, a
+	}
+	if aSym {
+		lit, ok := b.(*big.Int)
+		if !ok {
+			in.abort("operator %s on a symbolic flag set and %T", x.Op, b)
+		}
+		switch x.Op {
+		case token.AND:
+			var symIn []int
+			for k := range sa.bits {
+				if lit.Bit(k) == 1 {
+					symIn = append(symIn, k)
+				}
+			}
+			if len(symIn) == 0 {
+				return new(big.Int).And(sa.conc, lit), true
+			}
+			if len(symIn) == 1 && new(big.Int).And(sa.conc, lit).Sign() == 0 && lit.Cmp(new(big.Int).Lsh(big.NewInt(1), uint(symIn[0]))) == 0 {
+				return csymbit{symIn[0]}, true
+			}
+			in.abort("mask %s selects more than one undetermined bit", lit)
+		case token.EQL, token.NEQ:
+			if lit.Sign() != 0 {
+				in.abort("comparison of a symbolic flag set with %s", lit)
+			}
+			if sa.conc.Sign() != 0 {
+				return x.Op == token.NEQ, true
+			}
+			if !in.nonZero {
+				in.abort("comparison of an undetermined flag set with 0")
+			}
+			return x.Op == token.NEQ, true
+		}
+		in.abort("operator %s on a symbolic flag set", x.Op)
+	}
+	if bit, ok := a.(csymbit); ok {
+		if lit, ok := b.(*big.Int); ok && lit.Sign() == 0 {
+			switch x.Op {
+			case token.NEQ:
+				return csymcond{bit.k, true}, true
+			case token.EQL:
+				return csymcond{bit.k, false}, true
+			}
+		}
+		in.abort("operator %s on a single undetermined bit", x.Op)
+	}
+	if _, ok := b.(csymbit); ok {
+		in.abort("operator %s on a single undetermined bit", x.Op)
+	}
+	return nil, false
+}
+
+// flagSetsSymbolic (C18): "flag sets print as exactly the set of their members" for ALL subsets of
+// the single-bit flags of DIFlag, DISPFlag and AllocKind. The printer is executed once per value
+// of the concretely enumerated field (DIFlag: the two accessibility bits) with every other flag
+// an independent unknown bit; the loop over the masks is unrolled (the masks are literals), a
+// branch on one unknown bit whose guarded block only appends to the list of keywords yields a
+// guarded element, and the list handed to strings.Join must be, element by element, the keyword
+// of every member flag in ascending order, each guarded by exactly its own bit. The all-zero set
+// is executed concretely. Together with the keyword obligations (every single flag maps back
+// to itself) and the distinctness of the bits this decides the property for every subset.
+func (e *Engine) flagSetsSymbolic(in *interp, tpkgs map[*ssa.Package]bool) []staticResult {
+	type fam struct {
+		typ, printerPkg, printer, sep, from string
+		field                               int64 // bits enumerated concretely (a multi-bit field printed as one keyword)
+	}
+	fams := []fam{
+		{"DIFlag", modPath + "/ir/metadata", "diFlagsString", " | ", "DIFlagFromString", 3},
+		{"DISPFlag", modPath + "/ir/metadata", "dispFlagsString", " | ", "DISPFlagFromString", 0},
+		{"AllocKind", modPath + "/ir", "allocKindString", ",", "AllocKindFromString", 0},
+	}
+	apkg := e.pkgs[modPath+"/asm/enum"]
+	var res []staticResult
+	epkg := e.pkgs[modPath+"/ir/enum"]
+	for _, f := range fams {
+		r := staticResult{Name: "flagsets-all:" + f.typ, Func: f.printerPkg + "." + f.printer, Kind: "flagset-members", Status: "unsat", Backend: "govc-eval"}
+		pp := e.pkgs[f.printerPkg]
+		if pp == nil || epkg == nil {
+			r.Status, r.Detail = "error", "package "+f.printerPkg+" not loaded"
+			res = append(res, r)
+			continue
+		}
+		tpkgs[pp] = true
+		printer := pp.Func(f.printer)
+		tn, _ := epkg.Pkg.Scope().Lookup(f.typ).(*types.TypeName)
+		var from *ssa.Function
+		if apkg != nil {
+			from = apkg.Func(f.from)
+		}
+		if printer == nil || tn == nil || from == nil {
+			r.Status, r.Detail = "error", "contract-stale: "+f.printer+" / "+f.typ+" / "+f.from+" not found"
+			res = append(res, r)
+			continue
+		}
+		r.Pos = posOf(e, printer.Pos())
+		strFn := e.prog.MethodValue(e.prog.MethodSets.MethodSet(tn.Type()).Lookup(epkg.Pkg, "String"))
+		// valOf: the value the parser gives a printed piece
+		valOf := func(piece string) (*big.Int, string) {
+			v, pv, err := func() (out cval, pv *cpanic, err string) {
+				defer func() {
+					if x := recover(); x != nil {
+						if ab, ok := x.(evalAbort); ok {
+							err = ab.msg
+							return
+						}
+						panic(x)
+					}
+				}()
+				in.fuel, in.desc = 200000, false
+				rs, p := in.call(from, []cval{strings.TrimSpace(piece)})
+				if p != nil {
+					return nil, p, ""
+				}
+				return rs[0], nil, ""
+			}()
+			if err != "" {
+				return nil, "cannot execute " + f.from + ": " + err
+			}
+			if pv != nil {
+				return nil, fmt.Sprintf("%s rejects the piece %q", f.from, piece)
+			}
+			return bigOf(v), ""
+		}
+		run := func(fn *ssa.Function, arg cval, nonZero bool) (out cval, pv *cpanic, err string) {
+			defer func() {
+				if x := recover(); x != nil {
+					in.logging, in.wlog = false, nil
+					if ab, ok := x.(evalAbort); ok {
+						err = ab.msg
+						return
+					}
+					panic(x)
+				}
+			}()
+			in.fuel, in.desc, in.nonZero = 200000, false, nonZero
+			rs, p := in.call(fn, []cval{arg})
+			in.nonZero = false
+			if p != nil {
+				return nil, p, ""
+			}
+			return rs[0], nil, ""
+		}
+		// the single-bit flags outside the concretely enumerated field
+		bits := map[int]bool{}
+		var ks []int
+		sc := epkg.Pkg.Scope()
+		for _, c := range sc.Names() {
+			co, ok := sc.Lookup(c).(*types.Const)
+			if !ok || !types.Identical(co.Type(), tn.Type()) || !co.Exported() {
+				continue
+			}
+			v, _ := new(big.Int).SetString(constant.ToInt(co.Val()).ExactString(), 10)
+			if v.Sign() <= 0 || new(big.Int).And(v, new(big.Int).Sub(v, big.NewInt(1))).Sign() != 0 {
+				continue
+			}
+			k := v.BitLen() - 1
+			if f.field&(1<<uint(k)) != 0 || bits[k] {
+				continue
+			}
+			bits[k] = true
+			ks = append(ks, k)
+		}
+		sort.Ints(ks)
+		kwOf := func(v *big.Int) (string, string) {
+			s, pv, err := run(strFn, v, false)
+			if err != "" || pv != nil {
+				return "", fmt.Sprintf("cannot print %s: %s %v", v, err, pv)
+			}
+			return s.(string), ""
+		}
+		nruns := 0
+		for fv := int64(0); fv <= f.field && r.Status == "unsat"; fv++ {
+			if fv&^f.field != 0 {
+				continue
+			}
+			out, pv, err := run(printer, csym{conc: big.NewInt(fv), bits: bits}, true)
+			nruns++
+			if err != "" {
+				// the printer is not of the shape the symbolic run understands (this is not a refutation): fall back
+				// to concrete runs over all sets of at most three flags; a mismatch is a violation with its witness,
+				// agreement leaves the obligation undecided
+				why := fmt.Sprintf("%s with field value %d and every other flag undetermined: %s", f.printer, fv, err)
+				n := 0
+				var bad string
+				var try func(start int, chosen []int)
+				try = func(start int, chosen []int) {
+					if bad != "" {
+						return
+					}
+					for fv2 := int64(0); fv2 <= f.field; fv2++ {
+						if fv2&^f.field != 0 {
+							continue
+						}
+						val := big.NewInt(fv2)
+						var want []string
+						if fv2 != 0 {
+							w, _ := kwOf(big.NewInt(fv2))
+							want = append(want, w)
+						}
+						for _, k := range chosen {
+							b := new(big.Int).Lsh(big.NewInt(1), uint(k))
+							val.Or(val, b)
+							w, _ := kwOf(b)
+							want = append(want, w)
+						}
+						if val.Sign() == 0 {
+							continue
+						}
+						n++
+						out, pv2, err2 := run(printer, val, false)
+						if err2 != "" || pv2 != nil {
+							bad = fmt.Sprintf("%s(%s): %s %v", f.printer, val, err2, pv2)
+							return
+						}
+						got, _ := out.(string)
+						back := new(big.Int)
+						for _, pc := range strings.Split(got, f.sep) {
+							v, e1 := valOf(pc)
+							if e1 != "" {
+								bad = fmt.Sprintf("%s(%s) prints %q: %s", f.printer, val, got, e1)
+								r.Witness = val.String()
+								return
+							}
+							back.Or(back, v)
+						}
+						if back.Cmp(val) != 0 {
+							bad = fmt.Sprintf("%s(%s) prints %q, whose pieces map back to %s (the members are %q)", f.printer, val, got, back, strings.Join(want, f.sep))
+							r.Witness = val.String()
+							return
+						}
+					}
+					if len(chosen) == 3 {
+						return
+					}
+					for i := start; i < len(ks); i++ {
+						try(i+1, append(append([]int{}, chosen...), ks[i]))
+					}
+				}
+				try(0, nil)
+				if bad != "" {
+					r.Status, r.Detail = "fail", bad
+				} else {
+					r.Status, r.Detail = "error", fmt.Sprintf("undecided for all subsets (%s); %d sets of at most three flags print as their members", why, n)
+				}
+				break
+			}
+			if pv != nil {
+				r.Status, r.Detail = "fail", fmt.Sprintf("%s panics (field value %d): %s", f.printer, fv, pv.msg)
+				break
+			}
+			j, ok := out.(cgjoin)
+			if !ok || j.sep != f.sep {
+				r.Status, r.Detail = "fail", fmt.Sprintf("%s does not return strings.Join(keywords, %q) (field value %d): %v", f.printer, f.sep, fv, out)
+				break
+			}
+			// every unconditional piece denotes members of the concrete part, together exactly the concrete part;
+			// every piece guarded by bit k denotes exactly the flag 2^k; every undetermined bit has its piece
+			unc := new(big.Int)
+			covered := map[int]bool{}
+			for d, el := range j.elems {
+				switch x := el.(type) {
+				case string:
+					v, e1 := valOf(x)
+					if e1 != "" {
+						r.Status, r.Detail = "fail", fmt.Sprintf("%s (field value %d): piece %d (%q, printed unconditionally): %s", f.printer, fv, d, x, e1)
+					} else {
+						unc.Or(unc, v)
+					}
+				case cguard:
+					w, _ := x.v.(string)
+					v, e1 := valOf(w)
+					switch {
+					case e1 != "":
+						r.Status, r.Detail = "fail", fmt.Sprintf("%s (field value %d): piece %d (%s): %s", f.printer, fv, d, descElem(el), e1)
+					case !x.c.pos || v.Cmp(new(big.Int).Lsh(big.NewInt(1), uint(x.c.k))) != 0:
+						r.Status, r.Detail = "fail", fmt.Sprintf("%s (field value %d): piece %d is %s, which the parser maps to %s, not to the flag %d", f.printer, fv, d, descElem(el), v, int64(1)<<uint(x.c.k))
+					default:
+						covered[x.c.k] = true
+					}
+				default:
+					r.Status, r.Detail = "fail", fmt.Sprintf("%s (field value %d): piece %d is %v", f.printer, fv, d, el)
+				}
+				if r.Status != "unsat" {
+					break
+				}
+			}
+			if r.Status == "unsat" && unc.Cmp(big.NewInt(fv)) != 0 {
+				r.Status, r.Detail = "fail", fmt.Sprintf("%s (field value %d): the unconditionally printed pieces map back to %s", f.printer, fv, unc)
+			}
+			for _, k := range ks {
+				if r.Status == "unsat" && !covered[k] {
+					r.Status, r.Detail, r.Witness = "fail", fmt.Sprintf("%s (field value %d): the flag %d (bit %d) is never printed", f.printer, fv, int64(1)<<uint(k), k), fmt.Sprint(int64(1)<<uint(k)|fv)
+				}
+			}
+		}
+		// the empty set, concretely
+		if r.Status == "unsat" {
+			out, pv, err := run(printer, big.NewInt(0), false)
+			if err != "" || pv != nil {
+				r.Status, r.Detail = "fail", fmt.Sprintf("%s(0): %s %v", f.printer, err, pv)
+			} else if s, ok := out.(string); ok {
+				z, _ := kwOf(big.NewInt(0))
+				if s != "" && s != z {
+					r.Status, r.Detail = "fail", fmt.Sprintf("%s(0) prints %q", f.printer, s)
+				}
+			} else if j, ok := out.(cgjoin); !ok || len(j.elems) != 0 {
+				r.Status, r.Detail = "fail", fmt.Sprintf("%s(0) prints %v", f.printer, out)
+			}
+		}
+		if r.Status == "unsat" {
+			r.Detail = fmt.Sprintf("for every subset of the %d single-bit %s flags (and every value of the concretely enumerated field; %d symbolic runs + the empty set): the pieces %s hands to strings.Join are keywords that the parser maps back to exactly the members of the set (each flag printed iff it is a member)", len(ks), f.typ, nruns, f.printer)
+		}
+		res = append(res, r)
+	}
+	return res
+}
+
+func descElem(v cval) string {
+	switch x := v.(type) {
+	case cguard:
+		if x.c.pos {
+			return fmt.Sprintf("%q when bit %d is set", x.v, x.c.k)
+		}
+		return fmt.Sprintf("%q when bit %d is clear", x.v, x.c.k)
+	case string:
+		return fmt.Sprintf("%q unconditionally", x)
+	}
+	return fmt.Sprint(v)
 }
